@@ -110,8 +110,14 @@ def report(rep, pid, res, sigs, what):
 def run(pid, vh_args, what, rule, assumptions, mc=(), extra_cov=None, vh_cmd="mac", extra=()):
     rep = core.Report(pid)
     wd = core.workdir(pid)
-    core.run_vh(vh_cmd, wd, shards=core.NCPU, extra=list(vh_args))
-    traces = sorted(glob.glob(os.path.join(wd, "mac.*.ndjson")))
+    # vh_args: one argument list, or a list of argument lists (several generator runs, validated together)
+    runs = vh_args if vh_args and isinstance(vh_args[0], (list, tuple)) else [vh_args]
+    traces = []
+    for i, args in enumerate(runs):
+        d = os.path.join(wd, f"run{i}")
+        os.makedirs(d, exist_ok=True)
+        core.run_vh(vh_cmd, d, shards=core.NCPU, extra=list(args))
+        traces += sorted(glob.glob(os.path.join(d, "mac.*.ndjson")))
     res, sigs = validate(pid, traces, wd)
     report(rep, pid, res, sigs, what)
     n, hist, kinds, distinct = summarise(traces)
